@@ -43,7 +43,10 @@ def direct(rep, t, rnd):
     jobs = []
     for k in range(n):
         kind = rnd.random()
-        if kind < 0.5:
+        if kind < 0.2:
+            # saturated text (a channel near 0): the descent routine jumps to a gamut corner from such colours
+            text, bg = pairs.saturated(rnd), pairs.rand_colour(rnd)
+        elif kind < 0.5:
             text, bg = pairs.near_threshold(rnd, rnd.choice((3.0, 4.5, 7.0)), (0.0, 0.4))
         elif kind < 0.75:
             text, bg = pairs.near_background(rnd)
@@ -67,8 +70,35 @@ def direct(rep, t, rnd):
         elif k % 12 == 11 and fn == "gac":
             tol = [0.0, round(rnd.uniform(0.05, 0.6), 3)]
         jobs.append((fn, text, bg, tol, target, large))
-    evs = [e for e in vlib.pool_map(_call, jobs, chunksize=4) if e is not None]
+    # the descent routine only leaves its starting point from rare colours (a channel on an 8-bit rounding edge next to the
+    # gamut boundary): a few thousand cheap probing calls on saturated colours find the ones where it moves at all
+    for k in range(2500 if t == "quick" else 40000):
+        text, bg = pairs.saturated(rnd), pairs.rand_colour(rnd)
+        jobs.append(("gd", text, bg, round(rnd.uniform(1.0, 40.0), 3), rnd.choice([3.0, 4.5, 7.0, 10.0, 21.0]), bool(k & 1)))
+    evs0 = vlib.pool_map(_call, jobs, chunksize=16)
+    evs = [e for i_, e in enumerate(evs0) if e is not None and (i_ < n or e.get("out") and e["out"] != e["in"] or i_ % 10 == 0)]
+    # follow-up calls: wherever a routine moved the colour by d, it is asked again with a tolerance a little BELOW d
+    # (d - 0.003, d - 0.03, d - 0.12): the place it wants to go is now just out of bounds, so it has to return something
+    # else (or nothing / its input) - a bound enforced only softly (a penalty, a cheaper metric) shows exactly here
+    follow = []
+    for job, e in zip(jobs, evs0):
+        if e is None or not e.get("out") or e["out"] == e["in"] or e["de4"] < 2000:
+            continue
+        fn, text, bg, tol, target, large = job
+        for dlt in (0.003, 0.03, 0.12):
+            nt = round(e["de4"] / 10000.0 - dlt, 4)
+            if nt <= 0.05:
+                continue
+            if fn == "gac":
+                sched = sorted(set([round(x, 4) for x in tol if x < nt] + [nt]))
+                follow.append((fn, text, bg, sched, target, large))
+            else:
+                follow.append((fn, text, bg, nt, target, large))
+    if len(follow) > (900 if t == "quick" else 20000):
+        follow = rnd.sample(follow, 900 if t == "quick" else 20000)
+    evs += [e for e in vlib.pool_map(_call, follow, chunksize=4) if e is not None]
     rep.extra["direct_calls"] = len(evs)
+    rep.extra["direct_follow_up_calls_tolerance_just_below_previous_move"] = len(follow)
     if not evs:
         rep.extra["direct_calls_skipped"] = "search routines not found under their documented names"
         return
